@@ -169,6 +169,58 @@ fn check_inner(g: &Graph, facts: &mut Facts) -> Result<u64, String> {
     if es != refset(&all) || cnt != edges_ref.len() || !label_ok {
         return Err(format!("{desc}: global view has {cnt} edges {es:?}, the wiring has {} chain endpoints {:?}", edges_ref.len(), refset(&all)));
     }
+    // ---- per-node iterators and derived views of the same graph
+    for s in 0..n {
+        facts.queries += 2;
+        let exp: ESet = refset(&all).into_iter().filter(|e| e.0 == NAMES[s]).collect();
+        let mut cnt2 = 0;
+        let got: ESet = topo
+            .edges_for(NAMES[s])
+            .map(|e| {
+                cnt2 += 1;
+                (e.from.module().path().to_string(), e.to.module().path().to_string(), e.from.gate().path().to_string(), e.to.gate().path().to_string())
+            })
+            .collect();
+        if got != exp || cnt2 != exp.len() {
+            return Err(format!("{desc}: edges_for({}) yields {cnt2} edges {got:?}, the edges leaving that module are {exp:?}", NAMES[s]));
+        }
+        let node = topo.nodes().iter().find(|nd| nd.module().path().as_str() == NAMES[s]).unwrap();
+        if topo.edges_for_node(node).count() != exp.len() {
+            return Err(format!("{desc}: edges_for_node({}) yields {} edges, expected {}", NAMES[s], topo.edges_for_node(node).count(), exp.len()));
+        }
+    }
+    if topo.edges_for("no-such-module").count() != 0 {
+        return Err(format!("{desc}: edges_for of an unknown module yields edges"));
+    }
+    {
+        facts.queries += 3;
+        let deg = topo.with_node_connectivity_attachment();
+        for nd in deg.nodes() {
+            let i = NAMES.iter().position(|x| *x == nd.module().path().as_str()).unwrap();
+            let exp = edges_ref.iter().filter(|e| e.0 == i && e.1 != i).count();
+            if nd.degree != exp {
+                return Err(format!("{desc}: node connectivity attachment reports degree {} for {}, it has {exp} edges to other modules", nd.degree, NAMES[i]));
+            }
+        }
+        if collect(&topo.with_node_attachments(|_| ())).1 != es {
+            return Err(format!("{desc}: with_node_attachments changed the edges"));
+        }
+        let cost = topo.with_edge_cost_attachment();
+        let mut m = 0;
+        for e in cost.edges() {
+            m += 1;
+            if e.attachment.cost != 0.0 || !e.attachment.alive {
+                return Err(format!("{desc}: edge cost attachment {:?} on a channel-less chain between active modules", e.attachment));
+            }
+        }
+        if m != edges_ref.len() {
+            return Err(format!("{desc}: with_edge_cost_attachment has {m} edges, the view has {}", edges_ref.len()));
+        }
+        let dot = topo.as_dot();
+        if dot.matches(" -> ").count() != edges_ref.len() || dot.matches("[shape=box]").count() != n {
+            return Err(format!("{desc}: as_dot() lists {} edges and {} nodes, the view has {} and {n}", dot.matches(" -> ").count(), dot.matches("[shape=box]").count(), edges_ref.len()));
+        }
+    }
     // ---- connected / bidirectional
     let strongly = (0..n).all(|s| bfs(n, &adj, s).iter().all(Option::is_some));
     facts.disconnected = !strongly;
@@ -315,7 +367,7 @@ impl Property for C19 {
     fn rule(&self, tier: Tier) -> String {
         format!(
             "every multigraph on 1..={} modules (names s, a, ab, c, d) with 0..=2 parallel gate chains per module pair (0..=1 from {} modules on) and optional self chains, x first chain routed directly / through one transit gate on each module / through 15 transit gates (16 hops); \
-             per graph: global view (also re-extracted after every single chain is connected: it must mirror the wiring so far), connected, bidirectional, spanned(root) for every root, dijkstra(src) for every source, filter_nodes for every subset (+ connected on the result), filter_edges removing every single directed edge (+ bidirectional on simple graphs) and keeping only the edges towards higher / lower module indices (+ connected and bidirectional on the one-directional view); \
+             per graph: global view (also re-extracted after every single chain is connected: it must mirror the wiring so far), edges_for / edges_for_node per module, node-connectivity and edge-cost attachments, as_dot counts, connected, bidirectional, spanned(root) for every root, dijkstra(src) for every source, filter_nodes for every subset (+ connected on the result), filter_edges removing every single directed edge (+ bidirectional on simple graphs) and keeping only the edges towards higher / lower module indices (+ connected and bidirectional on the one-directional view); \
              oracle: reference adjacency list from the declared wiring, BFS distances; non-trivial = graph with a transit-routed chain, parallel chains, or a root with more than one neighbour",
             tier.pick(4, 5),
             tier.pick(4, 5)
